@@ -196,6 +196,17 @@ def r04_5_reader(cx):
             good = k0 is not None and k0[0] == 'op' and k0[1] == 'BitAnd' and k0[3] == ('c', 255) and is_call(k0[2], r'Index::index$') and is_repr(k0[2][2][0]) and k0[2][2][1] == atom('O')
             okk = okk and good
             KIND = k0 if good else KIND
+    dense_v, one_v = const(cx, 'KIND_DENSE'), const(cx, 'KIND_ONE')
+    for blk, sc in b.switches():
+        if sc[0] != 'int' or sc[1][0] == 'discr':
+            continue
+        vals = {v for v, tg in sc[2]}
+        if {dense_v, one_v} <= vals:
+            nk += 2
+            k0 = rewrite(strip_convs(expand_vars(b, sc[1])), fn)
+            good = k0[0] == 'op' and k0[1] == 'BitAnd' and k0[3] == ('c', 255) and is_call(k0[2], r'Index::index$') and is_repr(k0[2][2][0]) and k0[2][2][1] == atom('O')
+            okk = okk and good
+            KIND = k0 if good else KIND
     okk = okk and nk >= 2
     cx.report('R04.5', b, 'kind-byte', okk, 'kind = low byte of word 0' if okk else 'the kind tested against KIND_DENSE / KIND_ONE is not repr[o] & 0xFF')
     cls_calls = [strip_convs(expand_vars(b, b.call_term(bi, t0))) for bi, t0 in b.calls(r'contiguous::u32_len$')]
@@ -233,17 +244,36 @@ def r04_5_iter(cx):
         return atom('B') if y == BYTE else None
     okb = sorted(affine_str(rewrite(expand_vars(b, t, keep=lambda v: v == BYTE), bnorm)) for bi, si, t in defs) == ['+0', '+B +1', '+B +1']
     cx.report('R04.5', b, 'byte-counter', okb, 'the byte counter starts at 0 and advances by exactly 1 per visited byte' if okb else 'byte counter updates: %s' % [tstr(t, 40) for _, _, t in defs])
-    calls = [expand_vars(b, b.call_term(bi, t)) for bi, t in b.calls(r'FnMut::call_mut$')]
+    F = param_at(b, 4)
+    its = [b.call_term(bi, t0) for bi, t0 in b.calls(r'NFA::iter_trans$')]
+    one_iter_trans = len(its) == 1 and peel_all(its[0][2][0]) == param_at(b, 1) and peel_all(its[0][2][1]) == param_at(b, 2)
+    calls = []
+    allrows = list(summarize(cx.facts, b))
+    for h in b.loops():
+        allrows += loop_rows(cx.facts, b, h)
+    seen_sites = set()
+    for r in allrows:
+        for c in r.calls(r'FnMut::call_mut$'):
+            cc = canon(c)
+            if cstr(cc[2][0]) != cstr(F):
+                continue
+            key = cstr(cc)
+            if key in seen_sites:
+                continue
+            seen_sites.add(key)
+            calls.append(cc)
 
     def third(c):
         x = peel_all(c[2][1][3][2])
         if is_named_const(x, r'NFA::FAIL$'):
             return 'FAIL'
-        if (is_call(x, r'Transition::next$') or (x[0] == 'f' and x[2] == 'next')) and 'iter_trans' in tstr(x, 400):
-            return 'target'
+        if (is_call(x, r'Transition::next$') or (x[0] == 'f' and x[2] == 'next')):
+            base = peel_all(x[2][0]) if x[0] == 'call' else peel_all(x[1])
+            if 'iter_trans' in tstr(x, 400) or (base[0] == 'f' and base[1][0] == 'dc' and base[1][2] == 'Some' and is_call(peel_all(base[1][1]), r'Iterator::next$') and one_iter_trans):
+                return 'target'
         return tstr(x, 60)
-    kinds = sorted(third(c) for c in calls if is_agg(c[2][1], 'tuple') and len(c[2][1][3]) == 3)
-    okc = kinds == ['FAIL', 'FAIL', 'target']
+    kinds = sorted({third(c) for c in calls if is_agg(c[2][1], 'tuple') and len(c[2][1][3]) == 3})
+    okc = kinds == ['FAIL', 'target'] and len(calls) >= 3
     cx.report('R04.5', b, 'callbacks', okc, 'gaps are reported as FAIL, explicit transitions with their target' if okc else 'sparse_iter callbacks carry %s' % kinds)
 
     def gap(x):
@@ -256,28 +286,24 @@ def r04_5_iter(cx):
     g = bool_gates(b, gap)
     cx.report('R04.5', b, 'gap-loop', bool(g), 'gaps before a transition are walked while byte < t.byte()' if g else 'gap loop condition deviates')
     s = cx.body('util::alphabet::ByteClassSet::set_range')
-    adds = [(bi, s.call_term(bi, t)) for bi, t in s.calls(r'ByteSet::add$')]
-    lo = [(bi, ct) for bi, ct in adds if affine_str(strip_convs(ct[2][1])).replace(' ', '') == '+start-1']
-    hi = [(bi, ct) for bi, ct in adds if is_var(strip_convs(ct[2][1]), 'start') is False and is_var(strip_convs(ct[2][1]), 'end')]
-    gates = []
-    for blk, sc in s.switches():
-        if sc[0] != 'bool':
-            continue
-        c = rewrite(strip_convs(sc[1]), lambda y: atom('S') if is_var(y, 'start') else None)
-        cn = cmp_norm(c)
-        if cn is None or 'S' not in cn[2] or 'end' in cn[2]:
-            continue
-        v0, v1 = cmp_true_when(c, {'S': 0}), cmp_true_when(c, {'S': 1})
-        if v0 is None or v0 == v1:
-            continue
-        gates.append((blk, [(blk, t) for t in (sc[2] if v1 else sc[3])], [(blk, t) for t in (sc[2] if v0 else sc[3])]))
-    ok = len(lo) == 1 and len(hi) == 1 and bool(gates)
-    if ok:
-        # start - 1 is added exactly when start >= 1: reachable on the start=1 edge, unreachable on the start=0 edge
-        ok = all(lo[0][0] in s.reach(tg) for g in gates for _, tg in g[1]) and all(lo[0][0] not in s.reach(tg, cut_blocks=[hi[0][0]]) for g in gates for _, tg in g[2])
-        rets = s.return_blocks()
-        ok = ok and must_pass(s, rets, [hi[0][0]])
-    cx.report('R04.5', s, 'class-boundaries', ok, 'set_range(start, end) marks a class boundary after start-1 (iff start > 0) and after end' if ok else 'ByteClassSet::set_range does not mark exactly the boundaries start-1 (for every start >= 1) and end')
+    srows = [r for r in summarize(cx.facts, s) if r.end == 'return']
+    ST, EN = cstr(param_at(s, 2)), cstr(param_at(s, 3))
+    why = None if srows else 'set_range never returns'
+    try:
+        for a0 in (0, 1, 2, 7):
+            for e0 in (a0, a0 + 1, a0 + 5):
+                at = by_cstr({ST: a0, EN: e0})
+                sel = [r for r in srows if row_consistent(r, at)]
+                if len(sel) != 1:
+                    why = '%d paths for start=%d end=%d' % (len(sel), a0, e0)
+                    continue
+                adds = sorted(teval(canon(c)[2][1], at) for c in sel[0].calls(r'ByteSet::add$'))
+                want = sorted(([a0 - 1] if a0 > 0 else []) + [e0])
+                if adds != want:
+                    why = 'set_range(%d, %d) marks boundaries after %s, expected after %s' % (a0, e0, adds, want)
+    except (Unsupported, EvalPanic) as e:
+        why = 'cannot evaluate: %s' % e
+    cx.report('R04.5', s, 'class-boundaries', why is None, 'set_range(start, end) marks a class boundary after start-1 (iff start > 0) and after end' if why is None else 'ByteClassSet::set_range: ' + why)
 
 
 def r04_5_dfa(cx):
